@@ -233,6 +233,7 @@ impl<L: Language> Rule<L> {
       Rule::Any(any) => any.inner().iter().any(|r| r.check_cyclic(id)),
       Rule::Not(not) => not.inner().check_cyclic(id),
       Rule::Matches(m) => m.rule_id == id,
+      Rule::NthChild(n) => n.check_cyclic(id),
       _ => false,
     }
   }
